@@ -57,11 +57,13 @@ func AfterFunc(d time.Duration, f func()) *time.Timer {
 			return
 		}
 		g := getg()
+		owners.Store(g, s)
 		s.mu.Lock()
 		s.byG[g] = t
 		t.state = tRunning
 		s.mu.Unlock()
 		defer func() {
+			owners.Delete(g)
 			s.mu.Lock()
 			t.state = tDone
 			delete(s.byG, g)
